@@ -207,3 +207,60 @@ def obligations(ctx):
             if nok == 0:
                 ob.fail("no Ok path")
             ob.finish(E)
+
+
+    # ------------------------------------------------------------------ fake_full_tx: scripts, datums and redeemers of the sized transaction
+    # (the witnesses the real witness set will carry: collected scripts / redeemers, collected datums followed by every extra datum)
+    from obl.c09 import names_of
+    for nextra in (-1, 1, 2):
+        E = Engine(P, max_loop=8)
+        has_scripts, cd = z3.Bool("has_plutus_scripts"), z3.Bool("collected_datums_present")
+        E.extra_intrinsics[r"(^|::)count_needed_vkeys$"] = lambda E_, c, a: VInt(0, "usize")
+        E.extra_intrinsics[r"(^|::)get_bootstraps$"] = lambda E_, c, a: VSeq([], "set")
+        E.extra_intrinsics[r"BTreeSet::<std::vec::Vec<u8>>::len$"] = lambda E_, c, a: VInt(0, "usize")
+        E.extra_intrinsics[r"(^|::)fake_raw_key_sig$"] = lambda E_, c, a: VLazy("fake_sig", "Ed25519Signature")
+        E.extra_intrinsics[r"TransactionBuilder::get_combined_native_scripts$"] = lambda E_, c, a: opt(None)
+        def gcps(E_, c, a):
+            return opt(VStruct("PlutusWitnesses", [VSeq([VLazy("pw", "PlutusWitness")], "vec")])) if E_.choose([has_scripts, z3.Not(has_scripts)], "plutus scripts present") == 0 else opt(None)
+        E.extra_intrinsics[r"TransactionBuilder::get_combined_plutus_scripts$"] = gcps
+        def collect(E_, c, args):
+            d = opt(E_.mk_struct("PlutusList", elems=VSeq([VOpaque("collected_datums")], "vec"))) if E_.choose([cd, z3.Not(cd)], "collected datums") == 0 else opt(None)
+            return VStruct("()", [VLazy("collected_scripts", "PlutusScripts"), d, VLazy("collected_redeemers", "Redeemers")])
+        E.extra_intrinsics[r"PlutusWitnesses::collect$"] = collect
+        def wsnew(E_, c, a):
+            E_.trace.append(("witness_set", a))
+            return VLazy("ws", "TransactionWitnessSet")
+        E.extra_intrinsics[r"TransactionWitnessSet::new_with_partial_dedup$"] = wsnew
+        def mk(nextra=nextra, E=E):
+            extra = opt(E.mk_struct("PlutusList", elems=VSeq([VLazy("extra_datum%d" % j, "PlutusData") for j in range(nextra)], "vec"))) if nextra >= 0 else opt(None)
+            tb = E.mk_struct("TransactionBuilder", inputs=VLazy("inputs", "TxInputsBuilder"), extra_datums=extra, auxiliary_data=opt(None))
+            return [R(tb, "tx_builder"), VLazy("body", "TransactionBody")]
+        ob = Obligation(ctx, "c18_e2_fake_full_tx_plutus_part_%s_extra_datums" % ("no" if nextra < 0 else nextra), "Plutus scripts present / absent, collected datums present / absent, %s extra witness datums" % ("no" if nextra < 0 else nextra),
+                        ["fake_full_tx"], fallback_native="e2n_c09_battery")
+        npaths = 0
+        for o in E.explore("fake_full_tx", mk):
+            if o.kind != "return":
+                ob.vc("no panic (%s %s)" % (o.kind, o.msg), o.pc, z3.BoolVal(False)); continue
+            if o.value.variant != "Ok":
+                continue
+            npaths += 1
+            E.enter(o)
+            ws = [t for t in o.trace if t[0] == "witness_set"]
+            if len(ws) != 1:
+                ob.fail("witness set not built exactly once"); continue
+            a = ws[0][1]
+            scripts, data, reds = a[3], a[4], a[5]
+            sol = z3.Solver(); sol.add(*o.pc)
+            hs = sol.check(has_scripts) == z3.sat and sol.check(z3.Not(has_scripts)) != z3.sat
+            hd = hs and sol.check(cd) == z3.sat and sol.check(z3.Not(cd)) != z3.sat
+            if (scripts.variant == "Some") != hs or (hs and not (isinstance(scripts.fields[0], VLazy) and scripts.fields[0].path == "collected_scripts")):
+                ob.violation("sized transaction: Plutus scripts are not the collected scripts (present %s)" % hs)
+            if (reds.variant == "Some") != hs or (hs and not (isinstance(reds.fields[0], VLazy) and reds.fields[0].path == "collected_redeemers")):
+                ob.violation("sized transaction: redeemers are not the collected redeemers (present %s)" % hs)
+            want = (["Opaque(collected_datums)"] if hd else []) + ["extra_datum%d" % j for j in range(max(nextra, 0))]
+            got = names_of(E, VM.deref(E, data.fields[0]).fields[P.struct_fields["PlutusList"].index("elems")]) if data.variant == "Some" else None
+            if (got or []) != want or (got is None and (hd or nextra >= 0)):
+                ob.violation("sized transaction carries the datums %s, the real witness set will carry %s (collected datums %s, %s extra)" % (got, want, "present" if hd else "absent", max(nextra, 0)))
+        if npaths < 3:
+            ob.fail("only %d Ok paths (expected: no scripts, scripts without datums, scripts with datums)" % npaths)
+        ob.finish(E)
